@@ -48,3 +48,8 @@ claim("C12",
  "Trusted: the specification matrix in rules_c12.go written from the property statement; float64(int) assumed order preserving; operands outside the nine kinds are not modelled.",
  "static analysis: finite abstract evaluation of operator arms over an operand-kind matrix",
  "DESIGN.md §4 C12")
+claim("C14",
+ "Static decision of structural clauses of the path/script text round trip: every escape jp.AppendString can emit (per byte, per delimiter, 512 cells) is one the path parser's escape reader accepts and decodes to the same byte; Child.Append's dot-form predicate and the parser's dot-token readers consult the same table constant and class code; no dereference of a sibling operand under the other operand's nil guard. Precedence/evaluation equivalence of print and re-parse is not decided.",
+ "Trusted: as C04; the escape reader is identified structurally (switch with cases for 'u' and 'n').",
+ "static analysis: per-byte abstract interpretation of the writer vs the parser's escape case table; table-identity check; guard/dereference consistency lint",
+ "DESIGN.md §4 C14")
